@@ -48,6 +48,7 @@ def le_guard(key, bound, name):
 def run(prog, chk):
     buffer_tables(prog, chk)
     remap_table(prog, chk)
+    element_split_table(prog, chk)
     refused_mutation(prog, chk)
     _run(prog, chk)
 
@@ -436,3 +437,58 @@ def remap_table(prog, chk):
             return a == b
         ok = q.ret == 0 and all(same(got[k], want[k]) for k in want)
         chk.ob("C09.remap", inst, ok, "expected %s; source: status %s, %s" % (want, q.ret, got), loc=fn.loc(), fn=fn)
+
+
+def element_split_table(prog, chk):
+    """convertToNested (element codec): the children must tile the payload exactly.  Evaluated over payloads made of two children
+    followed by 0..3 stray octets (and an empty payload): accepted exactly when nothing is left over, every octet left is offered to the
+    element parser (which refuses a fragment), the children are listed in order, and a refused payload leaves the element unexpanded."""
+    from ksirules.bufinterp import BufInterp, Off
+    from ksirules.interp import TOP, Ptr, succeed_model
+    chk.rule("C09.elsplit", "element codec: nested content is accepted only when the children tile the payload exactly (decision table over stray octets)", floor=8)
+    fn = prog.fn("convertToNested", "tlv_element.c")
+    ep = fn.params[0]["n"]
+    for hdr, kids, stray in [(2, [(2, 1), (2, 1)], s) for s in (0, 1, 2, 3)] + [(4, [(4, 300), (2, 0)], s) for s in (0, 1, 2)] + [(2, [], 0), (2, [], 1)]:
+        starts, o = {}, hdr
+        for k, (h, d) in enumerate(kids):
+            starts[o] = (k, h, d)
+            o += h + d
+        total = o - hdr + stray
+        appended, offered = [], []
+
+        def parse(I, p, node, args):
+            off = I.as_off(args[0])
+            if off is None or not isinstance(args[1], int):
+                return TOP
+            offered.append((off.off, args[1]))
+            c = starts.get(off.off)
+            if c is None or args[1] < c[1] + c[2] or args[1] < 2:
+                return 0x101
+            key = lvalue_key(strip(node["a"][2])["e"], I.fn)
+            I.write(p, key, Ptr("CHILD%d" % c[0]))
+            I.write(p, "CHILD%d->ftlv.hdr_len" % c[0], c[1])
+            I.write(p, "CHILD%d->ftlv.dat_len" % c[0], c[2])
+            return 0
+
+        def append(I, p, node, args):
+            appended.append(args[1])
+            return 0
+        ov = {"KSI_TlvElement_parse": parse, "KSI_TlvElementList_append": append, "KSI_TlvElementList_new": lambda I, p, n, a: (I.write(p, lvalue_key(strip(n["a"][0])["e"], I.fn), Ptr("LIST")), 0)[1],
+              "KSI_TlvElement_free": lambda I, p, n, a: TOP, "KSI_TlvElementList_free": lambda I, p, n, a: TOP}
+        inputs = {ep: Ptr("E"), "E->subList": 0, "E->ptr": Ptr("BUF"), "E->ftlv.hdr_len": hdr, "E->ftlv.dat_len": total}
+        I = BufInterp(fn, {"BUF": hdr + total}, inputs=inputs, call_model=succeed_model(prog, ov), on_unknown="stop", prog=prog, loop_bound=len(kids) + 6)
+        paths = I.run()
+        chk.paths += len(paths)
+        inst = "element payload[children %s, %d stray octet(s)]" % ("+".join("%d" % (h + d) for h, d in kids) or "none", stray)
+        if len(paths) != 1 or paths[0].undetermined or paths[0].ret is TOP:
+            raise AnalysisBroken("convertToNested: evaluation not determined for %s: %s" % (inst, [q.undetermined[:1] for q in paths]))
+        q = paths[0]
+        sub = [t[2] for t in q.stores("E->subList")]
+        if stray == 0:
+            ok = q.ret == 0 and appended == [Ptr("CHILD%d" % k) for k in range(len(kids))] and sub[-1:] == [Ptr("LIST")]
+            what = "expected KSI_OK with the %d children in order; source: status %s, children %s, list attached %s" % (len(kids), q.ret, appended, sub)
+        else:
+            ok = q.ret != 0 and not any(v not in (0, None) for v in sub)
+            what = "expected a refusal (the last %d octet(s) are no element) and the element left unexpanded; source: status %s, children %s, list attached %s, offered to the parser (offset, length) %s" % (
+                stray, hex(q.ret) if isinstance(q.ret, int) else q.ret, appended, sub, offered)
+        chk.ob("C09.elsplit", inst, ok, what, loc=fn.loc(), fn=fn, nontrivial=stray > 0)
